@@ -155,7 +155,7 @@ pub fn eval(expr: Node) -> Result<Decimal, Box<dyn error::Error>> {
             if args.len() > 1 {
                 let mut result = Decimal::MAX;
                 for arg in <Vec<Node> as Clone>::clone(&args).into_iter() {
-                    result = eval(arg).unwrap().min(result);
+                    result = eval(arg)?.min(result);
                 }
                 Ok(result)
             } else {
@@ -169,7 +169,7 @@ pub fn eval(expr: Node) -> Result<Decimal, Box<dyn error::Error>> {
             if args.len() > 1 {
                 let mut result = Decimal::MIN;
                 for arg in <Vec<Node> as Clone>::clone(&args).into_iter() {
-                    result = eval(arg).unwrap().max(result);
+                    result = eval(arg)?.max(result);
                 }
                 Ok(result)
             } else {
@@ -182,14 +182,14 @@ pub fn eval(expr: Node) -> Result<Decimal, Box<dyn error::Error>> {
         Avg(args) => {
             let mut result = Decimal::ZERO;
             for arg in <Vec<Node> as Clone>::clone(&args).into_iter() {
-                result += eval(arg).unwrap();
+                result += eval(arg)?;
             }
             Ok(result / Decimal::new(args.len() as i64, 0))
         }
         Med(args) => {
             let mut results = vec![];
             for arg in <Vec<Node> as Clone>::clone(&args).into_iter() {
-                results.push(eval(arg).unwrap());
+                results.push(eval(arg)?);
             }
             results.sort_by(|a, b| a.partial_cmp(b).unwrap());
             let len = results.len();
